@@ -12,12 +12,12 @@ def run(ctx):
     import harness.c13 as H
     NL = H.NLISTS
     obs = [
-        Ob('wrapper_order', 'ob_wrapper_order', '', packed=[('outer_i', NL), ('with_emb', 3), ('nroutes', 3), ('emb_i', NL)],
+        Ob('wrapper_order', 'ob_wrapper_order', '', packed=[('outer_i', NL), ('with_emb', 3), ('nroutes', 3), ('seh', 2, 'bool'), ('emb_i', NL)],
            cells=[('outer%d_emb%d' % (o, e), [{'outer_i': o, 'with_emb': e}]) for o in range(NL) for e in range(3)], timeout=tmo,
            twin_fn='tw_wrapper_order', twin_pre=[{'outer_i': NL - 1, 'with_emb': 1}], confirm='confirm_wrapper_order',
            desc='application-level middleware lists (<= 2 of 3 wrapping unique types + 1 non-wrapping) x 0-2 own routes x 0, 1 or 2 (sibling) embedded applications with their own instances (lists may repeat a unique type): '
                 'on one request the wrappers run in list order, outermost first, the embedding application\'s before the embedded one\'s, a unique type once'),
-        Ob('files_released', 'ob_files_released', '', packed=[('file_i', 3), ('ims_sel', 4), ('method_i', 2), ('via_route', 2, 'bool')], timeout=tmo, confirm='confirm_files_released',
+        Ob('files_released', 'ob_files_released', '', packed=[('file_i', 5), ('ims_sel', 4), ('method_i', 2), ('via_route', 2, 'bool')], timeout=tmo, confirm='confirm_files_released',
            desc='StaticApplication / StaticFileRoute responses (200, 304 for If-Modified-Since at/after the mtime, HEAD): after close() of the returned iterable no file opened by clastic.static is still open'),
         Ob('reroute', 'ob_reroute', '', packed=[('how', 4), ('si', 4), ('hi', 3), ('bi', 4), ('extra_env', 3)], cells=[('how%d' % h, [{'how': h}]) for h in range(4)],
            timeout=tmo, confirm='confirm_reroute',
